@@ -32,6 +32,7 @@ def must_see(tier):
         for e in MUST:
             m['%s:%s' % (impl, e)] = 1
         m[impl + ':query-on-ghost-tree'] = 2000
+        m[impl + ':index_after_first_negative_index'] = 200
     return m
 
 
@@ -347,8 +348,46 @@ def build_args(mn, mx, emin, emax, rng):
     return args, kw
 
 
+def check_index_only(c, method, args, kw, expected, rng, rec, impl):
+    """FRESH sequence objects that are only ever indexed (no len(), bool()
+    or iteration first): the first access that needs the length is an index,
+    often a negative one, and later accesses on the same object must still
+    agree with the list."""
+    n = len(expected)
+    for _ in range(3):
+        seq = getattr(c, method)(*args, **kw)
+        first = rng.choice([-1, -2, -n, -(n // 2) - 1, 0, n - 1,
+                            rng.randint(-n - 1, n)])
+        idx = [first] + [rng.randint(-n - 1, n) for _ in range(3)]
+        if rng.random() < .5:
+            idx[1:] = sorted(idx[1:])      # ascending: the cursor moves on
+        for step, i in enumerate(idx):
+            rec.evaluations += 1
+            try:
+                got = ('ok', seq[i])
+            except IndexError:
+                got = ('exc', 'IndexError')
+            except Exception as e:
+                got = ('exc', type(e).__name__)
+            try:
+                want = ('ok', expected[i])
+            except IndexError:
+                want = ('exc', 'IndexError')
+            if step and idx[0] < 0:
+                rec.ev(impl + ':index_after_first_negative_index')
+            if got[0] != want[0] or (got[0] == 'ok' and
+                                     not eq(got[1], want[1])) or \
+                    (got[0] == 'exc' and got[1] != want[1]):
+                return dict(what='fresh seq, indexes %r: seq[%d]' % (
+                    idx[:step + 1], i), observed=got, expected=want)
+    return None
+
+
 def check_lazy(c, method, args, kw, expected, rng, rec, impl, nleaves,
                sweep=None):
+    bad = check_index_only(c, method, args, kw, expected, rng, rec, impl)
+    if bad:
+        return bad
     seq = getattr(c, method)(*args, **kw)
     n = len(expected)
     if sweep is not None:
